@@ -120,10 +120,30 @@ CLAIMS["C16"] = ("other",
     "reads exactly the requested mode (symbolic N). At fixed mode sets (6 subsets of a register of symbolic size, reported as "
     "shape-bounded): parity_expectation and reduced_dm ask for exactly the requested modes, hand only the REDUCED means/covariance "
     "to numpy.linalg / thewalrus (recording stubs), parity's value is the closed form of the reduced state, reduced_dm takes the "
-    "pure shortcut iff the REDUCED state is pure and returns two indices per mode. Bounded stand-in: cross-method and "
-    "cross-representation numerical identities on correlated 2-3 mode states for every subset. F29, F30, F31 found and repaired.",
-    "thewalrus.quantum functions are recording stubs; numerical agreement of float pipelines is bounded only; sorted() library contract",
+    "pure shortcut iff the REDUCED state is pure and returns two indices per mode. BaseBosonicState (2 components x 2 modes and "
+    "3 x 3, every weight / mean / covariance entry and the angle symbolic, shape-bounded): reduced_bosonic returns exactly the "
+    "requested modes, quad_expectation = (weighted mean, second moment of the mixture minus squared mean), mean_photon mean and "
+    "variance of the requested mode, fock_prob / reduced_dm hand every component in (x..,p..) order with its weight to thewalrus. "
+    "Bounded stand-in: cross-method and cross-representation numerical identities on correlated 2-3 mode Gaussian states and "
+    "two-mode cat states for every subset. F29, F30, F31 found and repaired; F42 (complex component means) is an open finding.",
+    "thewalrus.quantum functions are recording stubs; numerical agreement of float pipelines is bounded only; sorted() library "
+    "contract; bosonic contracts assume real weights and means",
     "deductive VCs over symbolic-size arrays + recording stubs for callee preconditions + bounded numeric stand-in", "DESIGN.md 5/C16")
+CLAIMS["C14"] = ("other",
+    "Proved at the IR-OBJECT level (real to_blackbird / from_blackbird / from_blackbird_to_tdm / to_xir / from_xir / "
+    "from_xir_to_tdm executed on programs whose numeric parameters, post-selection values, dark counts, run options and TDM "
+    "arrays are symbolic; blackbird.BlackbirdProgram / xir.Program replaced by record stubs; one obligation set per operation "
+    "class on permuted modes + a mixed circuit + a TDM program: shape-bounded): the IR carries class name, modes in order, "
+    "every parameter, select and dark_counts (falsy values included), target and options; converting does not modify the "
+    "program (no aliasing of parameter lists); converting back rebuilds the same commands; measured-parameter expressions are "
+    "re-bound to the same mode of the loaded program. Proved for every real |p| <= 1e6: io.utils._factor_out_pi returns text "
+    "denoting its argument (lemma chain over round / mod). Bounded stand-in: text round trip through the real serialisers "
+    "and parsers for every class of ops.__all__ x {blackbird, xir}, generate_code executed. F19, F43a-c, F49 found and repaired; "
+    "F20, F35, F43-F48, F50 are open findings (dagger never serialised, symbolic parameters lost in the text, classes the IRs "
+    "cannot express, generate_code drops select/dark_counts/dagger).",
+    "blackbird / xir containers are record stubs in the proofs, their serialisers and parsers are only exercised by the bounded "
+    "stand-in; real sympy is executed; floats as reals, np.isclose as its defining inequality",
+    "deductive VCs with record stubs for the IR containers + lemma-chain proof of _factor_out_pi + bounded text round trip", "DESIGN.md 5/C14")
 CLAIMS["C09"] = ("other",
     "Proved for all parameter values and both dagger flags (6 gate classes, normal and failing backend): Gate.apply leaves the "
     "operation's parameter list and its elements identical on normal AND exceptional exit, hands p[0] negated iff daggered, skips "
